@@ -111,7 +111,7 @@ MC_Empty == {}
 
 
 def run_purgeops(name, cmd='empty', entries=('e1', 'e2', 'e3'), trees=('e2',), orphans=('o1',), selected=('e1', 'e2'),
-                 crossvol=(), mutant='none', workers=4, timeout=900):
+                 crossvol=(), mutant='none', workers=4, timeout=900, occupied=()):
     mod = '''---- MODULE MC_%s ----
 EXTENDS PurgeOps
 MC_Entries == %s
@@ -119,11 +119,12 @@ MC_Trees == %s
 MC_Orphans == %s
 MC_Selected == %s
 MC_CrossVol == %s
+MC_Occupied == %s
 ====
 ''' % (name, tla_set(map(tla_str, entries)), tla_set(map(tla_str, trees)), tla_set(map(tla_str, orphans)),
-       tla_set(map(tla_str, selected)), tla_set(map(tla_str, crossvol)))
+       tla_set(map(tla_str, selected)), tla_set(map(tla_str, crossvol)), tla_set(map(tla_str, occupied)))
     cfg = ('SPECIFICATION Spec\nCONSTANTS Entries <- MC_Entries Trees <- MC_Trees Orphans <- MC_Orphans Selected <- MC_Selected '
-           'CrossVol <- MC_CrossVol\nCONSTANTS Cmd = "%s" Mutant = "%s"\n'
+           'CrossVol <- MC_CrossVol Occupied <- MC_Occupied\nCONSTANTS Cmd = "%s" Mutant = "%s"\n'
            'INVARIANT InfoLast\nINVARIANT RestoreNeverLoses\nINVARIANT FrameOK\nINVARIANT DoneOK\nPROPERTY RerunCompletes\n'
            'CHECK_DEADLOCK FALSE\n' % (cmd, mutant))
     return tlc.run_tlc('MC_' + name, cfg_text=cfg, workers=workers, timeout=timeout, extra_files={'MC_%s.tla' % name: mod})
@@ -143,12 +144,13 @@ MC_Empty == {}
 ====
 '''
     cfg = ('INIT InitP\nNEXT NextP\nCONSTANTS Entries <- MC_Entries Trees <- MC_Trees Orphans <- MC_Orphans Selected <- MC_Empty '
-           'CrossVol <- MC_Empty\nCONSTANTS Cmd = "any" Mutant = "none"\nCHECK_DEADLOCK FALSE\n')
+           'CrossVol <- MC_Empty Occupied <- MC_Empty\nCONSTANTS Cmd = "any" Mutant = "none"\nCHECK_DEADLOCK FALSE\n')
     d = tempfile.mkdtemp(prefix='vpg-', dir='/dev/shm' if os.path.isdir('/dev/shm') else None)
     try:
         p = os.path.join(d, 'obs.json')
         with open(p, 'w') as f:
-            json.dump([{k: o[k] for k in ('info', 'pay', 'dest', 'done', 'cmd', 'selected', 'purged')} for o in obs], f)
+            json.dump([dict({k: o[k] for k in ('info', 'pay', 'dest', 'done', 'cmd', 'selected', 'purged')},
+                            occupied=list(o.get('occupied', []))) for o in obs], f)
         res = tlc.run_tlc('MC_PurgeTrace', cfg_text=cfg, workers=workers, timeout=timeout, env={'TRACE_FILE': p},
                           extra_files={'MC_PurgeTrace.tla': mod})
         verdicts = {}
@@ -235,7 +237,7 @@ MC_Empty == {}
         shutil.rmtree(d, ignore_errors=True)
 
 
-def validate_purge_traces(traces, cmd, selected, crossvol, workers=4, timeout=900):
+def validate_purge_traces(traces, cmd, selected, crossvol, workers=4, timeout=900, occupied=()):
     """traces: list of observed-state sequences [{info, pay, dest}, ...] of ONE scenario -> (TlcResult, accepted ids)"""
     import json, os, re, shutil, tempfile
     mod = '''---- MODULE MC_PurgeOpsTrace ----
@@ -245,10 +247,11 @@ MC_Trees == {"e2", "o2"}
 MC_Orphans == {"o1", "o2"}
 MC_Selected == %s
 MC_CrossVol == %s
+MC_Occupied == %s
 ====
-''' % (tla_set(map(tla_str, selected)), tla_set(map(tla_str, crossvol)))
+''' % (tla_set(map(tla_str, selected)), tla_set(map(tla_str, crossvol)), tla_set(map(tla_str, occupied)))
     cfg = ('INIT InitT\nNEXT NextT\nCONSTANTS Entries <- MC_Entries Trees <- MC_Trees Orphans <- MC_Orphans Selected <- MC_Selected '
-           'CrossVol <- MC_CrossVol\nCONSTANTS Cmd = "%s" Mutant = "none"\n'
+           'CrossVol <- MC_CrossVol Occupied <- MC_Occupied\nCONSTANTS Cmd = "%s" Mutant = "none"\n'
            'INVARIANT ReportAccept\nINVARIANT InfoLast\nINVARIANT RestoreNeverLoses\nINVARIANT FrameOK\nCHECK_DEADLOCK FALSE\n' % cmd)
     d = tempfile.mkdtemp(prefix='vpu-', dir='/dev/shm' if os.path.isdir('/dev/shm') else None)
     try:
